@@ -3,7 +3,7 @@ small accessors everything else is phrased in), KIND-PRED (truth tables of the M
 from . import core
 from .core import show
 from .view import FnView, pnorm, OPTION
-from .pat import m, ANY, V, K, Par, C, F, E, P, B, Phi, members
+from .pat import m, ANY, V, K, Par, C, F, E, P, B, Phi, members, OneOf
 from .da import Sites, endswith, anykey
 from .search import is_const
 
@@ -81,7 +81,10 @@ def rule_accessors(ctx, R):
                           "set_output_pos must store x.map_or(0, get) (range-checked as U24) in the high 24 bits of opos_ch (set_a)")
             # ---- packing
             _getter(ctx, lib, PK, "a", ("agg", "intpack::U24", "U24", (("0", B("Shr", F(Par(1), "0", PK), K(8))),)), "ACC-PACK", "U24(self.0 >> 8)")
-            _getter(ctx, lib, PK, "b", B("BitAnd", F(Par(1), "0", PK), K(255)), "ACC-PACK", "self.0 & 0xFF")
+            word = F(Par(1), "0", PK)
+            low8 = OneOf(B("BitAnd", word, K(255)), ("cast", word, "u32", "u8"),
+                         E(C(endswith("::to_le_bytes"), word), K(0)), E(C(endswith("::to_be_bytes"), word), K(3)))
+            _getter(ctx, lib, PK, "b", low8, "ACC-PACK", "the low byte of self.0 (self.0 & 0xFF)")
             _setter(ctx, lib, PK, "set_a", F(Par(1), "0", PK), B("BitOr", B("Shl", C("intpack::U24::get", Par(2)), K(8)), C(PK + "::b", Par(1))),
                     "ACC-PACK", "store (a << 8) | self.b()")
             _setter(ctx, lib, PK, "set_b", F(Par(1), "0", PK), B("BitOr", B("Shl", C("intpack::U24::get", C(PK + "::a", Par(1))), K(8)), Par(2)),
@@ -92,16 +95,23 @@ def rule_accessors(ctx, R):
             tb = [b for b in lib.bodies.values() if b.j.get("impl_adt") == "intpack::U24" and b.j.get("impl_trait") == "core::convert::TryFrom" and b.name == "try_from"]
             if len(tb) == 1:
                 S = Sites(lib, tb[0])
-                from .search import switches_on, bool_arms
-                sw = switches_on(S.root, lambda d: d[0] == "bin" and d[1] in ("Le", "Lt", "Ge", "Gt"))
-                ok = len(sw) == 1
-                if ok:
-                    d = sw[0][2]
-                    ok = (d[1] == "Le" and m(Par(1), d[2]) and is_const(d[3], 0xFFFFFF)) or (d[1] == "Lt" and m(Par(1), d[2]) and is_const(d[3], 0x1000000)) or \
-                        (d[1] == "Ge" and is_const(d[2], 0xFFFFFF) and m(Par(1), d[3]))
-                    t = pnorm(S.root.ret())
-                    okv = any(x[0] == "agg" and x[2] == "Ok" and m(("agg", "intpack::U24", "U24", (("0", Par(1)),)), dict(x[3])["0"]) for x in members(t))
-                    ok = ok and okv
+                from . import cond
+                tbb = tb[0]
+
+                def in_range(val):
+                    # the proposition `v <= 0x00ff_ffff` in any comparison form
+                    return [(lambda t: cond.le_const(t, lambda x: m(Par(1), x), 0xFFFFFF) is True, val),
+                            (lambda t: cond.le_const(t, lambda x: m(Par(1), x), 0xFFFFFF) is False, not val)]
+                oks = {bi for bi, si, st in tbb.stmts() if st["k"] == "assign" and st["lhs"]["local"] == 0 and not st["lhs"]["proj"] and
+                       st["rv"]["k"] == "aggregate" and st["rv"].get("variant") == "Ok"}
+                errs = {bi for bi, si, st in tbb.stmts() if st["k"] == "assign" and st["lhs"]["local"] == 0 and not st["lhs"]["proj"] and
+                        st["rv"]["k"] == "aggregate" and st["rv"].get("variant") == "Err"}
+                v_in = cond.explore(S.root, [0], in_range(True))
+                v_out = cond.explore(S.root, [0], in_range(False))
+                t = pnorm(S.root.ret())
+                okv = any(x[0] == "agg" and x[2] == "Ok" and m(("agg", "intpack::U24", "U24", (("0", Par(1)),)), dict(x[3])["0"]) for x in members(t))
+                ok = okv and v_in is not None and v_out is not None and bool(oks) and bool(errs) and \
+                    bool(v_in & oks) and not (v_in & errs) and bool(v_out & errs) and not (v_out & oks)
                 ctx.check(ok, "ACC-PACK", tb[0], "u24-range-check", tb[0].span, "U24::try_from(v) must be Ok(U24(v)) exactly when v <= 0x00ff_ffff")
             else:
                 ctx.missing("ACC-PACK", "TryFrom<u32> for U24")
